@@ -132,12 +132,15 @@ Inductive src := KNow | KPay | KOther.
 Record cell := mk_cell { c_row : Z; c_col : string; c_src : src }.
 Definition assignment := (string * src)%type.
 
-(* columns in schema order, first assignment of each (the harness sorts what it observes the same way) *)
+(* columns in schema order, first assignment of each, then the assignments to columns the schema does not
+   know (raw map keys of a statement whose model is a narrower view of the table, or that has no model at
+   all: Table("t").Updates(map)), in the order they were made (the harness sorts what it observes the same way) *)
 Definition canon (s : schema) (set : list assignment) : list assignment :=
   flat_map (fun f => match find (fun a => String.eqb (fst a) (f_db f)) set with
                      | Some a => [a]
                      | None => []
-                     end) (col_fields s).
+                     end) (col_fields s)
+  ++ filter (fun a => negb (existsb (String.eqb (fst a)) (dbnames s))) set.
 
 (* ---- ConvertToAssignments ------------------------------------------------------------------------ *)
 (* struct payload; [is_save] = Dest is the Model itself (the key goes to WHERE) *)
